@@ -1,81 +1,21 @@
 (* driver.ml -- hand-written glue (trusted): parses one case per line, runs the
-   extracted model, prints one canonical result line per case.
+   extracted model through the per-package driver modules, prints one canonical result line per case.
    Line format:  <driver> <caseid> <token> ...   Output:  <caseid> <token> ... *)
-open Model
-
-let rec pos_of_int (i : int) : positive =
-  if i = 1 then XH
-  else if i land 1 = 0 then XO (pos_of_int (i lsr 1))
-  else XI (pos_of_int (i lsr 1))
-let n_of_int (i : int) : n = if i = 0 then N0 else Npos (pos_of_int i)
-let rec int_of_pos (p : positive) : int =
-  match p with XH -> 1 | XO q -> 2 * int_of_pos q | XI q -> 2 * int_of_pos q + 1
-let int_of_n (x : n) : int = match x with N0 -> 0 | Npos p -> int_of_pos p
-let z_of_int (i : int) : z =
-  if i = 0 then Z0 else if i > 0 then Zpos (pos_of_int i) else Zneg (pos_of_int (-i))
-let int_of_z (x : z) : int =
-  match x with Z0 -> 0 | Zpos p -> int_of_pos p | Zneg p -> - (int_of_pos p)
-
-let small = Array.init 256 n_of_int
-let hexval c =
-  match c with
-  | '0'..'9' -> Char.code c - 48
-  | 'a'..'f' -> Char.code c - 87
-  | 'A'..'F' -> Char.code c - 55
-  | _ -> failwith "hex"
-(* "-" is the empty byte string *)
-let bytes_of_hex (s : string) : n list =
-  if s = "-" then [] else begin
-    let len = String.length s / 2 in
-    let rec go i acc =
-      if i < 0 then acc
-      else go (i - 1) (small.(hexval s.[2*i] * 16 + hexval s.[2*i+1]) :: acc) in
-    go (len - 1) []
-  end
-let hex_of_bytes (l : n list) : string =
-  match l with
-  | [] -> "-"
-  | _ ->
-    let b = Buffer.create 64 in
-    List.iter (fun x -> Buffer.add_string b (Printf.sprintf "%02x" (int_of_n x))) l;
-    Buffer.contents b
-
-let frame_str (f : frame) : string =
-  Printf.sprintf "F %d %d %s" (int_of_n (byte_of_cmd f.fcmd)) (int_of_n f.fsid) (hex_of_bytes f.fdata)
-
-let split_ws s = List.filter (fun t -> t <> "") (String.split_on_char ' ' s)
-
-(* ---- drivers ---- *)
-let drv_enc args =
-  match args with
-  | [c; sid; data] ->
-    let f = { fcmd = cmd_of_byte (n_of_int (int_of_string c));
-              fsid = n_of_int (int_of_string sid); fdata = bytes_of_hex data } in
-    (match encode f with Some e -> "OK " ^ hex_of_bytes e | None -> "ERR")
-  | _ -> "BADCASE"
-
-let drv_dec args =
-  (* chunks fed one after the other to a streaming decoder *)
-  let b = Buffer.create 256 in
-  let carry = ref [] in
-  List.iter (fun ch ->
-      let (fs, r) = feed !carry (bytes_of_hex ch) in
-      carry := r;
-      List.iter (fun f -> Buffer.add_string b (frame_str f); Buffer.add_char b ' ') fs;
-      Buffer.add_string b (Printf.sprintf "R %d | " (List.length r))) args;
-  Buffer.contents b
+let packages : (string -> string list -> string option) list =
+  [ Drv_codec.dispatch; Drv_padding.dispatch; Drv_parsers.dispatch; Drv_http.dispatch;
+    Drv_timed.dispatch; Drv_session.dispatch; Drv_conc.dispatch; Drv_misc.dispatch ]
 
 let dispatch drv args =
-  match drv with
-  | "enc" -> drv_enc args
-  | "dec" -> drv_dec args
-  | _ -> Driver2.dispatch drv args
+  let rec go = function
+    | [] -> "UNKNOWN-DRIVER " ^ drv
+    | d :: ds -> (match d drv args with Some s -> s | None -> go ds) in
+  go packages
 
 let () =
   try
     while true do
       let line = input_line stdin in
-      match split_ws line with
+      match Util.split_ws line with
       | drv :: id :: args ->
         let out = try dispatch drv args with e -> "MODEL-EXN " ^ Printexc.to_string e in
         print_string id; print_char ' '; print_string (String.trim out); print_newline ()
